@@ -32,7 +32,7 @@ ANCHORS = [
     'desper/events.py::EventDispatcher._remove_weak_handler',
     'desper/events.py::EventDispatcher.dispatch',
 ]
-MIN_NONTRIVIAL = {'quick': 60, 'thorough': 1000}
+MIN_NONTRIVIAL = {'quick': 60, 'thorough': 5000}
 MIN_STATS = {'dispatches_checked': 500, 'drops_inside_dispatch': 100}
 EXHAUSTIVE = {
     'quick': 'k in {2,3} x all permutations of steered hash values x every '
@@ -75,7 +75,7 @@ def gen_cases(tier, seed):
             yield dict(case, twice=True)
     for k in (1, 2, 3):
         yield {'mode': 'slots', 'k': k}
-    n = 300 if tier == 'quick' else 16 * 1500
+    n = 300 if tier == 'quick' else 16 * 10000
     for i in range(n):
         rng = random.Random(f'C10/{seed}/{tier}/{i}')
         k = rng.randint(2, 5)
